@@ -349,19 +349,55 @@ impl C08 {
                     rt!("MacsecHeader", h.clone(), h.to_bytes().to_vec(), |b: &[u8]| MacsecHeader::from_slice(b).ok().map(|x| { let l = x.header_len(); (x, b.len() - l) }));
                 }
                 3 => {
+                    // typed variants wherever a value has one, built from the public constants and
+                    // an independent table of their numbers (linux/if_ether.h), never through the
+                    // crate's own TryFrom
+                    use etherparse::LinuxNonstandardEtherType as N;
+                    const NONSTD: [(N, u16); 28] = [
+                        (N::N802_3, 0x0001), (N::AX25, 0x0002), (N::ALL, 0x0003), (N::N802_2, 0x0004), (N::SNAP, 0x0005), (N::DDCMP, 0x0006),
+                        (N::WAN_PPP, 0x0007), (N::PPP_MP, 0x0008), (N::LOCALTALK, 0x0009), (N::CAN, 0x000C), (N::CANFD, 0x000D), (N::CANXL, 0x000E),
+                        (N::PPPTALK, 0x0010), (N::TR_802_2, 0x0011), (N::MOBITEX, 0x0015), (N::CONTROL, 0x0016), (N::IRDA, 0x0017), (N::ECONET, 0x0018),
+                        (N::HDLC, 0x0019), (N::ARCNET, 0x001A), (N::DSA, 0x001B), (N::TRAILER, 0x001C), (N::PHONET, 0x00F5), (N::IEEE802154, 0x00F6),
+                        (N::CAIF, 0x00F7), (N::XDSA, 0x00F8), (N::MAP, 0x00F9), (N::MCTP, 0x00FA),
+                    ];
+                    let v = match rng.below(4) {
+                        0 => NONSTD[rng.usize_below(28)].1,
+                        1 => *rng.pick(&[0u16, 0x000A, 0x000B, 0x000F, 0x0012, 0x0014, 0x001D, 0x00F4, 0x00FB, 0x0800, 0x86dd]),
+                        _ => rng.u16_corner(),
+                    };
+                    let (hrd, protocol_type, hrd_no) = match rng.below(6) {
+                        0 => (ArpHardwareId::NETLINK, LinuxSllProtocolType::NetlinkProtocolType(v), 824u16),
+                        1 => (ArpHardwareId::IPGRE, LinuxSllProtocolType::GenericRoutingEncapsulationProtocolType(v), 778),
+                        2 => (ArpHardwareId::IEEE80211_RADIOTAP, LinuxSllProtocolType::Ignored(v), 803),
+                        3 => (ArpHardwareId::FRAD, LinuxSllProtocolType::Ignored(v), 770),
+                        _ => (
+                            ArpHardwareId::ETHERNET,
+                            match NONSTD.iter().find(|x| x.1 == v) {
+                                Some((c, _)) => LinuxSllProtocolType::LinuxNonstandardEtherType(*c),
+                                None => LinuxSllProtocolType::EtherType(EtherType(v)),
+                            },
+                            1,
+                        ),
+                    };
+                    // packet types 0..=7 (pcap LINKTYPE_LINUX_SLL): host, broadcast, multicast, otherhost, outgoing, loopback, user, kernel
+                    const PT: [LinuxSllPacketType; 8] = [
+                        LinuxSllPacketType::HOST, LinuxSllPacketType::BROADCAST, LinuxSllPacketType::MULTICAST, LinuxSllPacketType::OTHERHOST,
+                        LinuxSllPacketType::OUTGOING, LinuxSllPacketType::LOOPBACK, LinuxSllPacketType::USER, LinuxSllPacketType::KERNEL,
+                    ];
+                    let ptn = rng.usize_below(8);
                     let h = LinuxSllHeader {
-                        packet_type: LinuxSllPacketType::try_from(rng.below(8) as u16).unwrap(),
-                        arp_hrd_type: ArpHardwareId::ETHERNET,
+                        packet_type: PT[ptn],
+                        arp_hrd_type: hrd,
                         sender_address_valid_length: rng.u16_corner(),
                         sender_address: rng.bytes(8).try_into().unwrap(),
-                        protocol_type: {
-                            let v = rng.u16_corner();
-                            match LinuxSllProtocolType::try_from((ArpHardwareId::ETHERNET, v)) {
-                                Ok(p) => p,
-                                Err(_) => LinuxSllProtocolType::EtherType(EtherType(v)),
-                            }
-                        },
+                        protocol_type,
                     };
+                    // the LINKTYPE_LINUX_SLL layout: ARPHRD at 2..4, protocol at 14..16, big endian
+                    let hb = h.to_bytes();
+                    if hb[0..2] != (ptn as u16).to_be_bytes() || hb[2..4] != hrd_no.to_be_bytes() || hb[14..16] != v.to_be_bytes() {
+                        rep.violation("values|LinuxSllHeader|layout", format!("{:?} -> {}", h, hex(&hb)), &hb);
+                    }
+                    rep.count(&format!("values.sll_protocol_variant.{}", format!("{:?}", h.protocol_type).split('(').next().unwrap_or("")));
                     rt!("LinuxSllHeader", h.clone(), h.to_bytes().to_vec(), |b| LinuxSllHeader::from_slice(b).ok().map(|x| (x.0, x.1.len())));
                 }
                 4 => {
@@ -743,10 +779,10 @@ impl C08 {
 impl Monitor for C08 {
     fn engines(&self, tier: Tier) -> Vec<(&'static str, u64)> {
         vec![
-            ("bytes", tier.pick(3_000_000, 30_000_000)),
-            ("values", tier.pick(1_500_000, 15_000_000)),
-            ("setters", tier.pick(300_000, 3_000_000)),
-            ("api", tier.pick(300_000, 3_000_000)),
+            ("bytes", tier.pick(3_000_000, 600_000_000)),
+            ("values", tier.pick(1_500_000, 300_000_000)),
+            ("setters", tier.pick(300_000, 60_000_000)),
+            ("api", tier.pick(300_000, 60_000_000)),
         ]
     }
 
